@@ -615,6 +615,180 @@ fn gen_case(id: u64, r: &mut Rng, out: &mut Out) -> (String, Vec<String>) {
     (format!("pw={}", dev_pw), ops)
 }
 
+/// what the network does to one handshake message and to its answer
+const NETV: [&str; 6] = ["", " dup=1", " drop=1", " rdrop=1", " drop=1 rdrop=1", " dup=1 rdrop=1"];
+
+/// ADVERSARY SCHEDULE: every handshake message (and the answer to it) is delivered, duplicated or lost once - all
+/// 6 x 6 x 6 combinations are enumerated by `round` -, and copies of EARLIER messages arrive late, at any later
+/// point of the handshake and after its end (reordering: the copy carries the counter of its original)
+fn gen_adv(round: u64, r: &mut Rng, out: &mut Out) -> (String, Vec<String>) {
+    let dev_pw = *r.pick(&[20202021u64, 12345679]);
+    let (v0, v1, v2) = (NETV[(round % 6) as usize], NETV[((round / 6) % 6) as usize], NETV[((round / 36) % 6) as usize]);
+    out.stat(&format!("adv_sched_{}{}{}", round % 6, (round / 6) % 6, (round / 36) % 6), 1);
+    let wrong = r.chance(1, 4);
+    let pw = if wrong { dev_pw - 1 } else { dev_pw };
+    let mut ops: Vec<String> = vec![format!("open t={}", *r.pick(&[180u64, 300, 900]))];
+    let late = |ops: &mut Vec<String>, r: &mut Rng, upto: u64, out: &mut Out| {
+        for _ in 0..r.below(3) {
+            let m = r.below(upto + 1);
+            out.stat(&format!("adv_late_copy_of_msg_{}_after_msg_{}", m, upto), 1);
+            ops.push(format!("resend i=1 m={}", m));
+        }
+    };
+    ops.push(format!("pbkdf i=1{}", v0));
+    late(&mut ops, r, 0, out);
+    ops.push(format!("pake1 i=1 pw={}{}", pw, v1));
+    late(&mut ops, r, 1, out);
+    let variant = r.below(5);
+    if variant == 0 {
+        // the window goes away while the last step is under way
+        ops.push("revoke".into());
+    }
+    ops.push(format!("pake3 i=1{}", v2));
+    late(&mut ops, r, 2, out);
+    if variant == 1 {
+        ops.push(format!("tick ms={}", r.range(100, 20_000)));
+        late(&mut ops, r, 2, out);
+    }
+    if wrong || variant == 0 {
+        if variant == 0 {
+            ops.push("open t=300".into());
+        }
+        // the honest initiator afterwards, under the same kind of network
+        ops.push(format!("pbkdf i=2{}", v2));
+        ops.push(format!("pake1 i=2 pw={}{}", dev_pw, v0));
+        ops.push("resend i=1 m=1".into());
+        ops.push(format!("pake3 i=2{}", v1));
+        ops.push("resend i=1 m=2".into());
+    }
+    (format!("pw={}", dev_pw), ops)
+}
+
+/// FAIL-SAFE / RevokeCommissioning: a successful Pake3 arms the fail-safe (60 s, only if it is not armed);
+/// `cmdrevoke` (the command through the real cluster handler) expires it - every PASE session goes - and closes the
+/// window; the fail-safe's own expiry (`fspoll` = the 1 s timeout check) does the same to the sessions
+fn gen_fs(round: u64, r: &mut Rng, out: &mut Out) -> (String, Vec<String>) {
+    let dev_pw = *r.pick(&[20202021u64, 12345679]);
+    let mut ops: Vec<String> = vec![format!("open t={}", *r.pick(&[300u64, 900]))];
+    let variant = round % 8;
+    out.stat(&format!("fs_variant_{}", variant), 1);
+    handshake(&mut ops, 1, dev_pw);
+    let second = r.chance(1, 2);
+    if second {
+        ops.push(format!("tick ms={}", r.range(100, 20_000)));
+        handshake(&mut ops, 2, dev_pw);
+    }
+    match variant {
+        0 | 1 => {
+            // a third handshake waits for its Pake3 when the command comes
+            ops.push("pbkdf i=3".into());
+            ops.push(format!("pake1 i=3 pw={}", dev_pw));
+            ops.push("cmdrevoke".into());
+            ops.push("pake3 i=3".into());
+            if variant == 1 {
+                ops.push("cmdrevoke".into()); // no window: succeeds nevertheless (the code does not look at `Ok(false)`)
+            }
+            ops.push("open t=300".into());
+            handshake(&mut ops, 4, dev_pw);
+            ops.push("cmdrevoke".into());
+        }
+        2 => {
+            // the API call closes the window only: the sessions stay until the fail-safe expires
+            ops.push("revoke".into());
+            ops.push("fspoll".into());
+            ops.push("tick ms=61000".into());
+            ops.push("fspoll".into());
+            ops.push("cmdrevoke".into());
+        }
+        3 | 4 => {
+            // the fail-safe's own expiry, just before / just after the 60 s (counted from the FIRST session)
+            let used: u64 = if second { 25_000 } else { 0 };
+            ops.push(format!("tick ms={}", 59_000 - used - r.range(0, 3000)));
+            ops.push("fspoll".into());
+            ops.push("tick ms=5000".into());
+            ops.push("fspoll".into());
+            if variant == 4 {
+                // a new session arms it again
+                handshake(&mut ops, 5, dev_pw);
+                ops.push("fspoll".into());
+                ops.push("cmdrevoke".into());
+            }
+        }
+        5 => {
+            // wrong passcodes do not arm anything; the window's own expiry leaves sessions and fail-safe alone
+            handshake(&mut ops, 6, dev_pw - 1);
+            ops.push("cmdrevoke".into());
+            ops.push("open t=180".into());
+            handshake(&mut ops, 7, dev_pw - 1);
+            ops.push("fspoll".into());
+            handshake(&mut ops, 8, dev_pw);
+            ops.push("tick ms=30000".into());
+            ops.push("fspoll".into());
+        }
+        6 => {
+            // eviction takes a PASE session while the fail-safe is armed; then the command
+            ops.push("fill n=16 pin=1".into());
+            ops.push("pbkdf i=9".into());
+            ops.push("unfill".into());
+            ops.push("cmdrevoke".into());
+            ops.push("open t=300".into());
+            handshake(&mut ops, 10, dev_pw);
+        }
+        _ => {
+            // duplicated / lost datagrams around the arming step, a late copy of the successful Pake3 after the command
+            ops.push("pbkdf i=11 drop=1".into());
+            ops.push(format!("pake1 i=11 pw={} rdrop=1", dev_pw));
+            ops.push("pake3 i=11 dup=1 rdrop=1".into());
+            ops.push("cmdrevoke".into());
+            ops.push("resend i=11 m=2".into());
+            ops.push("resend i=1 m=2".into());
+            ops.push("open t=300".into());
+            ops.push("resend i=11 m=2".into());
+        }
+    }
+    (format!("pw={}", dev_pw), ops)
+}
+
+const RESP_HOWS: [&str; 13] = ["rnd", "rrand", "ssid", "iter", "salt", "salt15", "salt33", "salt0", "noparams", "status", "opcode", "last", "trail"];
+const PAKE2_HOWS: [&str; 9] = ["pb", "cb", "cbzero", "short", "pbinf", "status", "opcode", "last", "trail"];
+const STATUS_HOWS: [&str; 3] = ["fail", "parse", "opcode"];
+
+/// THE INITIATOR: the real `PaseInitiator::perform` against the real responder while PBKDFParamResponse / Pake2 /
+/// the final StatusReport are modified in flight (every structured modification enumerated by `round`, plus single-bit
+/// flips), with the right and with a wrong passcode; every case ends with an untouched handshake that must succeed
+fn gen_init(round: u64, r: &mut Rng, out: &mut Out) -> (String, Vec<String>) {
+    let dev_pw = *r.pick(&[20202021u64, 12345679]);
+    let mut ops: Vec<String> = vec!["open t=900".to_string()];
+    let all: Vec<String> = RESP_HOWS
+        .iter()
+        .map(|h| format!("resp:{}", h))
+        .chain(PAKE2_HOWS.iter().map(|h| format!("pake2:{}", h)))
+        .chain(STATUS_HOWS.iter().map(|h| format!("status:{}", h)))
+        .collect();
+    for j in 0..4u64 {
+        let pick = (round * 4 + j) as usize;
+        let mutation = if r.chance(1, 4) {
+            let target = *r.pick(&["resp", "resp", "pake2", "pake2", "status"]);
+            format!("{}:bit{}", target, r.below(2048))
+        } else {
+            all[pick % all.len()].clone()
+        };
+        out.stat(&format!("init_mut_{}", mutation.split(':').next().unwrap_or("?")), 1);
+        let ipw = if r.chance(1, 6) { dev_pw - 1 } else { dev_pw };
+        ops.push(format!("hs ipw={} mut={}", ipw, mutation));
+    }
+    if r.chance(1, 2) {
+        ops.push(format!("hs ipw={}", dev_pw - 1));
+    }
+    if r.chance(1, 5) {
+        ops.push("revoke".into());
+        ops.push(format!("hs ipw={}", dev_pw));
+        ops.push("open t=300".into());
+    }
+    ops.push(format!("hs ipw={}", dev_pw));
+    (format!("init pw={}", dev_pw), ops)
+}
+
 /// the honest handshake with one payload bit flipped in flight
 fn gen_tamper(r: &mut Rng, out: &mut Out) -> (String, Vec<String>) {
     let dev_pw = *r.pick(&[20202021u64, 12345679]);
@@ -641,6 +815,25 @@ pub fn gen(a: &Args, run: &mut dyn FnMut(&mut Out, &Case)) -> String {
         let mut cr = r.fork();
         let (kind, ops) = gen_case(id + offset, &mut cr, &mut out);
         run(&mut out, &Case { id, kind, ops });
+    }
+    // adversary schedules (loss / duplication / late copies per message) and the fail-safe / RevokeCommissioning paths
+    let n_adv = if a.thorough { 648 } else { 216 };
+    for id in 0..n_adv {
+        let mut cr = r.fork();
+        let (kind, ops) = gen_adv(id, &mut cr, &mut out);
+        run(&mut out, &Case { id: 100_000 + id, kind, ops });
+    }
+    let n_fs = if a.thorough { 240 } else { 48 };
+    for id in 0..n_fs {
+        let mut cr = r.fork();
+        let (kind, ops) = gen_fs(id, &mut cr, &mut out);
+        run(&mut out, &Case { id: 110_000 + id, kind, ops });
+    }
+    let n_init = if a.thorough { 420 } else { 63 };
+    for id in 0..n_init {
+        let mut cr = r.fork();
+        let (kind, ops) = gen_init(id, &mut cr, &mut out);
+        run(&mut out, &Case { id: 120_000 + id, kind, ops });
     }
     // tamper stream: single-bit mutations of the handshake messages in flight (oracle only)
     let n_tamper = if a.thorough { 4000 } else { 300 };
